@@ -227,13 +227,16 @@ def failed_theorems(pid: str, build_out: str):
         m = re.match(r"\s*(?:theorem|lemma|example)\s*([^\s:({\[]*)", l)
         if m: starts.append((i, m.group(1) or f"example@{i}"))
     out = []
-    for m in re.finditer(rf"{re.escape(os.path.basename(path))}:(\d+):\d+: error", build_out):
-        ln = int(m.group(1)); name = None
+    base = re.escape(os.path.basename(path))
+    # lake prints `error: <path>:<line>:<col>: <message>` (older versions: `<path>:<line>:<col>: error: <message>`)
+    for m in re.finditer(rf"error: \S*{base}:(\d+):\d+:|{base}:(\d+):\d+: error", build_out):
+        ln = int(m.group(1) or m.group(2)); name = None
         for s, n in starts:
             if s <= ln: name = n
         if name and name not in out: out.append(name)
     # errors in imported files
-    for m in re.finditer(r"(CijProofs/[\w/]+\.lean|CijModel/[\w/]+\.lean|Generated/\w+\.lean):(\d+):\d+: error", build_out):
+    for m in re.finditer(r"(?:error: )?(CijProofs/[\w/]+\.lean|CijModel/[\w/]+\.lean|Generated/\w+\.lean):(\d+):\d+:(?: error)?", build_out):
+        if not (m.group(0).startswith("error: ") or m.group(0).endswith(" error")) or m.group(1) == os.path.relpath(path, LEAN): continue
         tag = f"{m.group(1)}:{m.group(2)}"
         if tag not in out: out.append(tag)
     return out
